@@ -100,6 +100,7 @@ impl Shared {
         self.query(db, table, "partial", format!("SELECT uid, sometimes FROM \"{}\"", table), thread);
         self.query(db, table, "filter", format!("SELECT uid FROM \"{}\" WHERE uid >= {}", table, 2 * UID_SHIFT), thread);
         self.query(db, table, "top", format!("SELECT uid FROM \"{}\" ORDER BY uid DESC LIMIT 3", table), thread);
+        self.query(db, table, "strs", format!("SELECT uid, s FROM \"{}\"", table), thread);
     }
 }
 
@@ -160,7 +161,7 @@ fn observed_prefix(o: &Obs, h: &TableHist) -> Result<Vec<usize>, (String, String
         })))
     };
     match o.kind {
-        "uids" | "absent" | "partial" => {
+        "uids" | "absent" | "partial" | "strs" => {
             let got = uids(q);
             let j = classify(&got, &|j| prefix_uids(h, j))?;
             if o.kind == "absent" {
@@ -168,6 +169,21 @@ fn observed_prefix(o: &Obs, h: &TableHist) -> Result<Vec<usize>, (String, String
                     if c.iter().any(|v| !v.is_null()) {
                         return Err(("absent_column_not_null".into(), "never_ingested has a non-NULL cell".into()));
                     }
+                }
+            }
+            if o.kind == "strs" {
+                // string cells point into column data while the answer is assembled: each must still be the one ingested
+                match q.col("s") {
+                    Some(c) => {
+                        for (u, v) in got.iter().zip(c.iter()) {
+                            let want = V::Str(format!("r{}-{}", u / UID_SHIFT, (u % UID_SHIFT) % 2));
+                            if *v != want {
+                                return Err(("cell_changed".into(), format!("uid {} has s={}, expected {}", u, v.short(), want.short())));
+                            }
+                        }
+                    }
+                    None if !got.is_empty() => return Err(("column_missing".into(), "column s missing from the answer".into())),
+                    None => {}
                 }
             }
             if o.kind == "partial" {
@@ -462,6 +478,110 @@ fn run_gate_scenario(id: &str, gate: Option<(String, usize)>, inject: &'static s
     trace
 }
 
+/// The mirror image of the gate scenario: the *query* is held at its k-th partition boundary while an eviction (or a
+/// flush followed by an eviction) runs to completion, so partial results computed before the gate must stay valid
+/// although the columns they were computed from have been dropped from memory in the meantime.
+fn run_qgate_scenario(k: usize, inject: &'static str, lz4: bool, threads: usize, out: &mut CaseOut, op: &OpCell) {
+    install_sync_hook();
+    let tables = ["g0", "g1"];
+    let mut cfg = scenario_cfg(999, lz4);
+    cfg.threads = threads;
+    let mut dbw = Db::open(&cfg, op);
+    let sh = Arc::new(Shared { t0: Instant::now(), tables: Mutex::new(BTreeMap::new()), obs: Mutex::new(Vec::new()) });
+    *SYNC.lock().unwrap() = Some(SyncState { counts: BTreeMap::new(), trace: vec![], gate: None, fired: false, delay_ppm: 0, recording: false });
+    let db = dbw.handle().clone();
+    // four flushed partitions per table + an open buffer
+    for round in 0..4 {
+        for t in &tables {
+            sh.ingest(&db, t, 3 + round);
+        }
+        db.force_flush();
+    }
+    for t in &tables {
+        sh.ingest(&db, t, 2);
+    }
+    let pending: Arc<Mutex<Vec<std::thread::JoinHandle<()>>>> = Arc::new(Mutex::new(Vec::new()));
+    let overlapped = Arc::new(AtomicUsize::new(0));
+    let action: Action = {
+        let db = db.clone();
+        let sh = sh.clone();
+        let pending = pending.clone();
+        let overlapped = overlapped.clone();
+        Arc::new(move || {
+            let done = Arc::new(AtomicBool::new(false));
+            let d2 = done.clone();
+            let db2 = db.clone();
+            let sh2 = sh.clone();
+            let h = std::thread::spawn(move || {
+                match inject {
+                    "evict" => {
+                        db2.evict_cache();
+                    }
+                    "evict2" => {
+                        db2.evict_cache();
+                        // touch the columns again so that they are re-loaded into fresh allocations, then drop them again
+                        let _ = futures::executor::block_on(db2.run_query("SELECT uid, s FROM \"g0\"", false, false, vec![]));
+                        db2.evict_cache();
+                    }
+                    _ => {
+                        sh2.ingest(&db2, "g0", 4);
+                        db2.force_flush();
+                        db2.evict_cache();
+                    }
+                }
+                d2.store(true, Ordering::SeqCst);
+            });
+            let start = Instant::now();
+            while !done.load(Ordering::SeqCst) && start.elapsed() < Duration::from_millis(600) {
+                std::thread::sleep(Duration::from_millis(1));
+            }
+            if done.load(Ordering::SeqCst) {
+                overlapped.fetch_add(1, Ordering::SeqCst);
+            }
+            pending.lock().unwrap().push(h);
+        })
+    };
+    {
+        let mut g = SYNC.lock().unwrap();
+        let st = g.as_mut().unwrap();
+        st.counts.clear();
+        st.trace.clear();
+        st.fired = false;
+        st.recording = true;
+        st.gate = Some(Gate { label: "query:before_partition".into(), occurrence: k, action: Some(action) });
+    }
+    op.set("query battery (query-gate scenario)");
+    sh.battery(&db, "g0", 0);
+    op.set("");
+    let fired = {
+        let mut g = SYNC.lock().unwrap();
+        let st = g.as_mut().unwrap();
+        st.recording = false;
+        st.gate = None;
+        st.fired
+    };
+    op.set("join injected operation");
+    let hs: Vec<_> = pending.lock().unwrap().drain(..).collect();
+    for h in hs {
+        let _ = h.join();
+    }
+    op.set("");
+    sh.battery(&db, "g0", 0);
+    sh.battery(&db, "g1", 0);
+    let case = json!({"query_gate": format!("query:before_partition#{}", k), "inject": inject, "mem_lz4": lz4, "threads": threads});
+    check_history(&sh, out, &format!("qgate|{}", inject), &case, &[]);
+    if fired {
+        let how = if overlapped.load(Ordering::SeqCst) > 0 { "completed_inside_query" } else { "blocked_by_query" };
+        out.distinct(format!("qgate#{}|{}|lz4={}|threads={}|{}", k, inject, lz4, threads, how));
+        out.set("query_gate_points_hit", format!("query:before_partition#{}|{}", k, inject));
+        out.count(&format!("query_gate_injection_{}", how), 1);
+    } else {
+        out.count("query_gates_not_reached", 1);
+    }
+    drop(db);
+    dbw.close(true);
+}
+
 fn run_stress(id: String, seed: u64, ops_per_thread: usize, out: &mut CaseOut, op: &OpCell) {
     install_sync_hook();
     let mut rng = Rng::derive(seed, &id, 0);
@@ -639,6 +759,24 @@ pub fn run(ctx: &mut Ctx) {
                 let idc = id.clone();
                 ctx.run(&id, "gate-schedule", json!({"gate": format!("{}#{}", label, k), "inject": inject, "factor": factor, "mem_lz4": lz4}), move |out, op| {
                     run_gate_scenario(&idc, Some(g), inject, factor, lz4, out, op);
+                });
+            }
+        }
+    }
+    // query held at each of its partition boundaries (7 statements x 5 partitions) while an eviction completes
+    let qvariants: Vec<(bool, usize)> = if ctx.quick() { vec![(true, 3), (false, 1)] } else { vec![(true, 3), (false, 1), (false, 3), (true, 1), (true, 8)] };
+    for (lz4, threads) in qvariants {
+        for k in 1..=36usize {
+            for inject in ["evict", "evict2", "flush_evict"] {
+                if ctx.quick() && inject != "evict" && k % 3 != 0 {
+                    continue;
+                }
+                let id = format!("qgate-{}-{}-{}-t{}", k, inject, lz4 as u8, threads);
+                if !ctx.take(&id) {
+                    continue;
+                }
+                ctx.run(&id, "query-gate-schedule", json!({"query_gate": k, "inject": inject, "mem_lz4": lz4, "threads": threads}), move |out, op| {
+                    run_qgate_scenario(k, inject, lz4, threads, out, op);
                 });
             }
         }
